@@ -142,24 +142,16 @@ def scenario(sc, tmproot, chooser_factory):
     played = []
     commands = []
 
-    class OsShim:
-        """auditok.workers' view of the os module with system() recorded instead of spawning a shell"""
-        def __getattr__(self_, name):
-            return getattr(os, name)
-
-        def system(self_, cmd):
-            f = cmd.split(" ", 1)[1] if " " in cmd else ""
-            try:
-                with wave.open(f) as wf:
-                    commands.append((cmd.split(" ")[0], wf.readframes(-1), (wf.getframerate(), wf.getsampwidth(), wf.getnchannels())))
-            except Exception:
-                commands.append((cmd, None, None))
-            try:
-                os.remove(f)
-            except OSError:
-                pass
-            return 0
-    W.os = OsShim()
+    # the user's command of CommandLineWorker is a real executable (harness/bin/consume): it notes that it ran and keeps a copy of the file it
+    # was given, so nothing depends on HOW the worker starts it (os.system, subprocess, a shell)
+    consume_dir = os.path.join(tmp, "consumed")
+    if "command" in kinds:
+        os.makedirs(consume_dir, exist_ok=True)
+        open(os.path.join(consume_dir, "log"), "w").close()
+        os.environ["VERIF_CONSUME_DIR"] = consume_dir
+        bindir = os.path.join(os.path.dirname(os.path.abspath(__file__)), "bin")
+        if bindir not in os.environ.get("PATH", "").split(":"):
+            os.environ["PATH"] = bindir + ":" + os.environ.get("PATH", "")
     fn = os.path.join(tmp, "stream.wav")
     src = reader
     saver = None
@@ -239,6 +231,17 @@ def scenario(sc, tmproot, chooser_factory):
         a = round(d.start * sr) * bps
         b = round(d.end * sr) * bps
         detregs[d.id] = data[a:b]
+    if "command" in kinds:
+        try:
+            lines = [x for x in open(os.path.join(consume_dir, "log")).read().split("\n") if x]
+        except OSError:
+            lines = []
+        for j, ln in enumerate(lines):
+            try:
+                with wave.open(os.path.join(consume_dir, f"{j}.wav")) as wf:
+                    commands.append((ln.split(" ")[0] if ln.endswith(" present") else "missing", wf.readframes(-1), (wf.getframerate(), wf.getsampwidth(), wf.getnchannels())))
+            except Exception:  # noqa
+                commands.append((ln, None, None))
     for i, k in enumerate(kinds):
         if k == "rec":
             processed.append(got[i + 1])
@@ -371,7 +374,6 @@ def scenario(sc, tmproot, chooser_factory):
             saver._wfp.close()
     except Exception:
         pass
-    W.os = os
     shutil.rmtree(tmp, ignore_errors=True)
     return impl, obs_rec
 
